@@ -443,6 +443,66 @@ fn race_once(layout: &Layout, flushed: &[Upd], ch: &mut Chooser) -> Race {
     })
 }
 
+/// (b') the compaction worker's wake-ups (`compact_if_needed`, three in a row, at most two inputs per pass, so that a
+/// backlog of four segments takes several passes) against one flush. Returns the race and whether the whole flush ran
+/// as one block AFTER a pass had published its manifest and before the compactor touched the manifest again -
+/// a flush that overlaps no pass at all, which no pass may undo.
+fn passes_race_once(layout: &Layout, flushed: &[Upd], ch: &mut Chooser) -> (Race, bool) {
+    use vh::stores::Tagged;
+    polex::with_runtime(|rt| {
+        rt.block_on(async {
+            let store = build_store(layout);
+            let (fs, cs) = (Tagged(store.clone(), "F"), Tagged(store.clone(), "C"));
+            let cfgw = WriteBufferConfig { flush_interval: Duration::from_secs(3600), max_size_bytes: 1 << 20, max_deltas: 1000, backpressure_threshold_bytes: 1 << 24, compression_enabled: false };
+            let mut p = StreamingPersistence::with_clock(Arc::new(fs), PREFIX.to_string(), 1, cfgw, SimulatedClock::new(1_000)).await.expect("persistence");
+            for u in flushed {
+                p.push(u.delta()).unwrap();
+            }
+            store.clear_log();
+            store.set_yield(true);
+            let mm = ManifestManager::new(cs.clone(), PREFIX);
+            let ccfg = CompactionConfig { target_segment_size: 1 << 30, max_segments: 2, min_segments_to_compact: 2, max_segments_per_compaction: 2, tombstone_ttl: Duration::from_millis(HOUR_MS), compression_enabled: false };
+            let mut c = Compactor::with_time_source(Arc::new(cs), PREFIX.to_string(), mm, ccfg, VerifTime::new(0));
+            let flush_res = std::rc::Rc::new(std::cell::RefCell::new(None));
+            let comp_res = std::rc::Rc::new(std::cell::RefCell::new(String::new()));
+            let mut sched = Sched::new();
+            let (fr, cr) = (flush_res.clone(), comp_res.clone());
+            sched.add("flush", Box::pin(async move { *fr.borrow_mut() = Some(p.flush().await.is_ok()); }), false);
+            sched.add(
+                "compact",
+                Box::pin(async move {
+                    let mut out = Vec::new();
+                    for _ in 0..3 {
+                        out.push(match c.compact_if_needed().await {
+                            Ok(Some(r)) => format!("compacted {}", r.segments_removed.len()),
+                            Ok(None) => "idle".to_string(),
+                            Err(e) => format!("error: {e}"),
+                        });
+                    }
+                    *cr.borrow_mut() = out.join(", ");
+                }),
+                false,
+            );
+            let r = sched.run_to_completion(ch, 10_000).await;
+            store.set_yield(false);
+            let log = store.log();
+            let ops: Vec<String> = log.iter().map(|o| format!("{}:{} {}{}", o.actor, o.kind, o.key.rsplit('/').next().unwrap_or(""), if o.ok { "" } else { "!" })).collect();
+            let f_idx: Vec<usize> = log.iter().enumerate().filter(|(_, o)| o.actor == "F").map(|(i, _)| i).collect();
+            let contiguous = !f_idx.is_empty() && f_idx.last().unwrap() - f_idx[0] + 1 == f_idx.len();
+            let after_publish = f_idx.first().map_or(false, |first| {
+                log[..*first].iter().rev().find(|o| o.actor == "C" && o.key.contains("manifest")).map_or(false, |o| o.kind == "rename" && o.ok)
+            });
+            let fold_after = match r {
+                Err(e) => Err(format!("stuck: {e}")),
+                Ok(()) => recover_fold(&store),
+            };
+            let flush_ok = flush_res.borrow().unwrap_or(false);
+            let compact_outcome = comp_res.borrow().clone();
+            (Race { cause: String::new(), fold_after, flush_ok, compact_outcome, ops }, contiguous && after_publish)
+        })
+    })
+}
+
 fn main() {
     let args = cli::parse_args();
     vh::quiet_panics();
@@ -467,6 +527,14 @@ fn main() {
         if r["race"] == json!(true) {
             let flushed: Vec<Upd> = parse_layout(&json!({"checkpoint": null, "segments": [r["flushed"].clone()]})).segments[0].clone();
             let schedule: Vec<u32> = r["schedule"].as_array().unwrap().iter().map(|x| x.as_u64().unwrap() as u32).collect();
+            if r["passes"] == json!(true) {
+                let (race, between) = passes_race_once(&layout, &flushed, &mut polex::replay_prefix(&schedule));
+                println!("store ops: {:?}", race.ops);
+                println!("flush ok={} compaction wake-ups: {} ; flush ran between passes: {between}", race.flush_ok, race.compact_outcome);
+                println!("recovered after: {:?}", race.fold_after.as_ref().map(projection));
+                println!("(re-run ./check C13 to judge; replay prints the execution)");
+                std::process::exit(0);
+            }
             let race = race_once(&layout, &flushed, &mut polex::replay_prefix(&schedule));
             println!("store ops: {:?}", race.ops);
             println!("flush ok={} compaction: {}", race.flush_ok, race.compact_outcome);
@@ -699,8 +767,48 @@ fn main() {
         }
     }
 
+    // ---------------- (b') the worker's wake-ups over a backlog || one flush ----------------
+    let mut passes_execs = 0u64;
+    let mut passes_between = 0u64;
+    let mut passes_exhaustive = true;
+    {
+        let layout = Layout { checkpoint: None, segments: vec![vec![k(1, Kind::SetA, 1)], vec![k(2, Kind::SetA, 2)], vec![k(4, Kind::SetA, 3)], vec![k(5, Kind::SetA, 4)]] };
+        let flushed = vec![k(3, Kind::SetA, 9)];
+        let before = recover_fold(&build_store(&layout)).expect("initial layout recovers");
+        let mut expected = before.clone();
+        for u in &flushed {
+            fold_into(&mut expected, &u.delta());
+        }
+        let b = if thorough { 3 } else { 2 };
+        let cfg = DfsConfig { budgets: [b, b, u32::MAX, u32::MAX], deadline: Some(std::time::Instant::now() + Duration::from_secs(if thorough { 300 } else { 20 })), ..Default::default() };
+        let stats = polex::explore(&cfg, |ch| {
+            let (race, between) = passes_race_once(&layout, &flushed, ch);
+            if !between {
+                return true; // a flush that overlaps a pass: part (b) and its listed findings
+            }
+            passes_between += 1;
+            let replay = json!({"race": true, "passes": true, "layout": layout_json(&layout), "flushed": layout_json(&Layout { checkpoint: None, segments: vec![flushed.clone()] })["segments"][0], "schedule": ch.schedule()});
+            let ctx = format!("layout {} ; three compact_if_needed() wake-ups (max 2 inputs per pass) ; one flush of [{}] that ran as one block after a pass had published its manifest ; store ops in order: {:?} ; flush ok={} ; wake-ups: {}", layout.show(), flushed.iter().map(|u| u.show()).collect::<Vec<_>>().join(" "), race.ops, race.flush_ok, race.compact_outcome);
+            match &race.fold_after {
+                Err(e) => rep.violation("race: flush-between-compaction-passes recovery-error".to_string(), format!("{e}; {ctx}"), replay),
+                Ok(f) => {
+                    if race.flush_ok && projection(f) != projection(&expected) {
+                        rep.violation("race: flush-between-compaction-passes data-lost".to_string(), format!("expected {:?} recovered {:?}; {ctx}", projection(&expected), projection(f)), replay);
+                    }
+                }
+            }
+            true
+        });
+        passes_execs = stats.executions;
+        if stats.truncated {
+            passes_exhaustive = false;
+        }
+    }
+
     let coverage = json!({
-        "evaluations": cases.load(Ordering::Relaxed) + race_execs,
+        "worker_wakeups_vs_flush": {"executions": passes_execs, "executions_with_the_flush_between_passes": passes_between, "exhaustive_within_bound": passes_exhaustive,
+            "rule": "four single-record segments, max_segments 2, at most 2 inputs per pass; three compact_if_needed() calls in a row against one flush, every interleaving of their store operations with at most 2 (thorough 3) preemptions and delays; judged: the executions in which the whole flush ran after a pass had published its manifest and before the compactor read or wrote the manifest again - recovery afterwards must hold the four keys and the flushed one"},
+        "evaluations": cases.load(Ordering::Relaxed) + race_execs + passes_execs,
         "distinct_nontrivial": compacted.load(Ordering::Relaxed) + race_outcomes.len() as u64,
         "rule": "(a) every set of 2-3 updates, plus every set of 4 (thorough: 5) over a tiny universe (k1: {SET a, DEL} x time 1..3 x replica 1; two updates of k2) (thorough: also 4 over a reduced universe and 4 over all key-1 updates with times 1..2) from a universe of 38 updates (key k1: {SET a, SET b, DEL, HSET f, HSET g, HDEL f} x logical time 1..3 x replica 1..2; two updates of k2) whose merge is order-independent, placed in every way into >=2 ordered segments (optionally one update in a checkpoint), x 24 configurations (clock in {0, ttl-1, ttl+10, production epoch} x ttl in {1h, 0}; all segments selected / only single-record segments / at most 2 per compaction): recovered state before vs after one real compact(); a case is non-trivial when compaction actually rewrote segments; (b) every interleaving of the store operations of compact() and a concurrent flush() for the listed layouts",
         "update_sets_considered": sets.len(),
